@@ -9,6 +9,18 @@ use svm::{Ledger, Outcome};
 use whirlpool::math::sqrt_price_from_tick_index;
 use whirlpool::verif_hooks::SwapTrace;
 
+/// serde_json's Value cannot hold integers beyond u64: u128 fields travel as decimal strings.
+pub mod u128_str {
+    use serde::{Deserialize, Deserializer, Serializer};
+    pub fn serialize<S: Serializer>(v: &u128, s: S) -> Result<S::Ok, S::Error> {
+        s.serialize_str(&v.to_string())
+    }
+    pub fn deserialize<'de, D: Deserializer<'de>>(d: D) -> Result<u128, D::Error> {
+        let s = String::deserialize(d)?;
+        s.parse::<u128>().map_err(serde::de::Error::custom)
+    }
+}
+
 #[derive(Clone, Copy, Debug, PartialEq, Eq, Hash, Serialize, Deserialize, PartialOrd, Ord)]
 pub enum Lim {
     /// no explicit limit (0)
@@ -24,7 +36,7 @@ pub enum Lim {
     /// the protocol bound in the trade direction
     Bound,
     /// an explicit sqrt price
-    Price(u128),
+    Price(#[serde(with = "u128_str")] u128),
 }
 
 #[derive(Clone, Copy, Debug, PartialEq, Eq, Hash, Serialize, Deserialize, PartialOrd, Ord)]
@@ -36,7 +48,12 @@ pub enum Part {
 
 #[derive(Clone, Debug, PartialEq, Eq, Hash, Serialize, Deserialize, PartialOrd, Ord)]
 pub enum Op {
-    Inc { pos: u8, liq: u128, v2: bool },
+    Inc {
+        pos: u8,
+        #[serde(with = "u128_str")]
+        liq: u128,
+        v2: bool,
+    },
     Dec { pos: u8, part: Part, v2: bool },
     Swap { a_to_b: bool, exact_in: bool, amount: u64, lim: Lim, v2: bool },
     Update { pos: u8 },
@@ -46,7 +63,12 @@ pub enum Op {
     SetFeeRate(u16),
     SetProtocolFeeRate(u16),
     CollectReward { pos: u8, index: u8, v2: bool },
-    SetEmissions { index: u8, rate: u128, v2: bool },
+    SetEmissions {
+        index: u8,
+        #[serde(with = "u128_str")]
+        rate: u128,
+        v2: bool,
+    },
 }
 
 /// All initialized ticks of the pool, from the harness's own decoding of every existing tick array of this pool.
